@@ -182,6 +182,19 @@ func genBridge(t *rapid.T) bridgesync.Bridge {
 	}
 }
 
+// genBridgeOrRepeat draws a fresh deposit or, one time in five, repeats the fields of an earlier one: the contract's leaf
+// value does not include the deposit count, so two identical deposits (same user, token, amount, destination) have the
+// same leaf hash at different positions of the tree.
+func genBridgeOrRepeat(t *rapid.T, prev []bridgesync.Bridge) bridgesync.Bridge {
+	if len(prev) > 0 && rapid.IntRange(0, 4).Draw(t, "repeatEarlierDeposit") == 0 {
+		p := prev[rapid.IntRange(0, len(prev)-1).Draw(t, "repeatWhich")]
+		d := p
+		d.Amount, d.Metadata, d.Calldata = cpBig(p.Amount), cpBytes(p.Metadata), cpBytes(p.Calldata)
+		return d
+	}
+	return genBridge(t)
+}
+
 // isExtremeBridge classifies field extremes for the non-triviality rules.
 func isExtremeBridge(b bridgesync.Bridge) bool {
 	return b.Amount.Sign() == 0 || b.Amount.Cmp(maxU256) == 0 || len(b.Metadata) == 0 || len(b.Metadata) >= 1024 ||
